@@ -291,11 +291,16 @@ def _lean_lemmas(rel, extra, started=None):
             ok, out = p.returncode == 0 and "error" not in (p.stdout + p.stderr), (p.stdout + p.stderr)[-1500:]
     except Exception as ex:  # noqa
         ok, out = False, "%s: %s" % (type(ex).__name__, ex)
-    cheats = _re.findall(r"\b(sorry|axiom|admit|native_decide)\b", text)
+    code = _re.sub(r"/-.*?-/", " ", text, flags=_re.S)
+    code = _re.sub(r"--[^\n]*", " ", code)
+    cheats = _re.findall(r"\b(sorry|axiom|admit|native_decide)\b", code)          # scanned in the code, not in the comments
     secs = time.time() - t0
     from . import setsum
 
-    used = sorted(setsum.axioms()) + ["ssum_congr", "ssum_union", "ssum_nonneg", "ssum_zero", "ssum_member_le", "sum_enumeration", "card_eq_sum_ones"]
+    used = sorted(set(setsum.axioms()) | set(setsum.LEMMA_NAMES))
+    unproved = [u for u in used if u not in theorems]
+    if unproved:
+        extra.setdefault("engine", []).append("lean: the SMT side uses set-sum facts without a theorem of that name in %s: %s" % (rel, unproved))
     obs = []
     for name in theorems:
         obs.append({"name": "lean:SetSum.%s" % name, "full_name": "lean:SetSum.%s" % name, "path": "-", "kind": "lemma", "label": name, "seconds": round(secs / max(1, len(theorems)), 3),
@@ -304,7 +309,6 @@ def _lean_lemmas(rel, extra, started=None):
         extra.setdefault("engine", []).append("lean: no theorem found in %s" % rel)
     if cheats:
         extra.setdefault("engine", []).append("lean: %s contains %s" % (rel, sorted(set(cheats))))
-    missing = [u for u in used if u.startswith("ssum") and u not in theorems and u not in ("ssum_update",) and u not in theorems]
     return {"key": "lean:" + rel, "obligations": obs, "paths": 0, "paths_by_outcome": {}, "requires_sat": "sat", "notes": ["axioms used by the SMT side: %s" % ", ".join(used)], "inlined": [], "hyp": [],
             "file": path, "span": None, "sha": hashlib.sha256(text.encode()).hexdigest(), "seconds": round(secs, 3)}
 
